@@ -78,6 +78,19 @@ class SStr:
         return self
 
 
+class TaggedRow(dict):
+    """one table row as a dictionary; remembers the value-changing operations (rounding ...) applied to the table it came from"""
+
+    def __init__(self, d=(), tags=()):
+        super().__init__(d)
+        self.tags = tuple(tags)
+
+    def __deepcopy__(self, memo):
+        r = TaggedRow({k: copy.deepcopy(v, memo) for k, v in self.items()}, self.tags)
+        memo[id(self)] = r
+        return r
+
+
 def sstr_of(v):
     """str(v) for abstract values"""
     if isinstance(v, (str, SStr)):
@@ -353,7 +366,7 @@ def install(I: Interp, fs: dict):
         orient = k.get("orient", a[0] if a else "dict")
         if orient != "index":
             I.err(n, f"DataFrame.to_dict(orient={orient!r})")
-        return {Num.const(i): {c: f.cols[c][i] for c in f.cols} for i in range(f.nrows)}
+        return {Num.const(i): TaggedRow({c: f.cols[c][i] for c in f.cols}, f.tags) for i in range(f.nrows)}
     M[("MiniFrame", "to_dict")] = mf_to_dict
 
     def mf_to_csv(I, f, a, k, n):
@@ -390,7 +403,12 @@ def install(I: Interp, fs: dict):
             for r in data:
                 for c in r:
                     cols.setdefault(c, None)
-            return MiniFrame({c: [r.get(c, NAN) for r in data] for c in cols})
+            tags = ()
+            for r in data:
+                for t_ in getattr(r, "tags", ()):
+                    if t_ not in tags:
+                        tags += (t_,)
+            return MiniFrame({c: [r.get(c, NAN) for r in data] for c in cols}, tags)
         if isinstance(data, dict):
             return MiniFrame({c: list(v.values) if isinstance(v, Col) else list(v) for c, v in data.items()})
         I.err(n, f"DataFrame from {data!r}")
